@@ -13,6 +13,10 @@ import sys
 import types
 
 
+class Deadlock(RuntimeError):
+    """the virtual loop has nothing runnable and no timer: whoever is waiting waits for ever"""
+
+
 class VLoop(asyncio.SelectorEventLoop):
     def __init__(self, seed=None, shuffle=False, jitter=0.0, quantum=0.001, stable=False):
         super().__init__()
@@ -53,6 +57,12 @@ class VLoop(asyncio.SelectorEventLoop):
             when = sched[0]._when
             if when > self._vt:
                 self._vt = when
+        if not self._ready and not sched and not self._stopping:
+            # nothing is runnable and no timer is pending: on a virtual clock nothing can ever happen again (only another thread could
+            # wake the loop - look once). The code under test waits for something that will never come: a verdict, not a hung check
+            self._process_events(self._selector.select(0))
+            if not self._ready and not self._scheduled:
+                raise Deadlock("every task is waiting and no timer is pending: the run can never continue")
         if self._shuffle and len(self._ready) > 1:
             items = list(self._ready)
             self._rng.shuffle(items)
